@@ -1,8 +1,24 @@
 import Xp.Model.C09
+import Xp.Proofs.C09World
 /-
 C09 — connection details reach only their owner's secret, filtered, from the right XR.
-Theorems over Xp/Model/C09.lean for ALL detail maps, key filters and pre-existing secrets.
+Theorems over Xp/Model/C09.lean for ALL detail maps, key filters and pre-existing secrets, and
+over Xp/Model/C09World.lean for all stores of secrets, owners, fault plans (every API error class
+at every call, lost answers, cache misses, a concurrent writer) and sequences of operations of
+the long-lived publisher / propagator, and for the composers' flow with any number of templates.
 Maps are association lists; "is a map" = no duplicate keys (`Nodup`), as Go maps are.
+
+Clauses of the property and where they are proved (monitors: props/C09.json level_note):
+ 1 only keys the XRD allows ........ publish_keys, publish_keys_allowed_history, publishA_write_keys, stepW_pub_keys
+ 2 only values of this XR's composition  extract_provenance, foldDetails_provenance, flow_values_provenance,
+                                    flow_pt_foreign_blocks, flow_fn_foreign_invisible, pt_foreign_not_published
+ 3 written only if asked ........... publish_only_if_asked, propagate_only_if_asked, stepW_unasked
+ 4 claim secret = exact copy ....... propagate_exact, propagateE_exact, propagateA_copy, stepW_prop_copy
+ 5 only from a secret the XR controls  propagate_needs_controller, propagateA_source_error, stepW_prop_copy
+ 6 identical data never rewritten .. publish_no_rewrite, publish_idempotent, propagate_idempotent,
+                                    stepW_pub_no_rewrite, stepW_pub_idempotent
+ 7 only the owner's secret ......... publish_guard, publishA_guard, propagateA_guard, stepW_frame, stepW_guard,
+                                    stepW_owner, runW_foreign_untouched, runW_frame, flow_frame, flow_guard
 -/
 namespace Xp.C09
 
@@ -463,5 +479,687 @@ example : (publish true ["user"] [("user", "1"), ("pass", "2")] (some ⟨true, .
     some ⟨true, .owner, [("stale", "x"), ("user", "1")]⟩ := by decide
 example : (propagate true true (some ⟨true, .xr, [("user", "1")]⟩) (some ⟨true, .owner, [("old", "x")]⟩)).slot =
     some ⟨true, .owner, [("user", "1")]⟩ := by decide
+
+/-! ### the long-lived writers: every API error class at every call -/
+
+/-- without faults `publishA` is `publish` -/
+theorem publishA_none (wants : Bool) (filter : List String) (details : Data) (slot : Slot) :
+    (publishA none wants filter details slot).res slot = publish wants filter details slot := by
+  unfold publishA publish Out.res
+  cases wants with
+  | false => simp [Out.nop]
+  | true =>
+    simp only [Bool.not_true, Bool.false_eq_true, if_false, faultAt]
+    cases slot with
+    | none => simp [writeOut, faultAt]
+    | some s =>
+      simp only []
+      by_cases hc : controllable s .owner = true
+      · by_cases hu : needsUpdate s.data (desiredData filter details) = true
+        · simp [hc, hu, writeOut, faultAt]
+        · simp [hc, hu, Out.nop]
+      · simp [hc, Out.fail]
+
+/-- the informer-cache miss of `publishE` is a NotFound answer to the Get (call 0) -/
+theorem publishA_miss (lost wants : Bool) (filter : List String) (details : Data) (slot : Slot) :
+    (publishA (some ⟨0, .notFound, lost⟩) wants filter details slot).res slot =
+      publishE { miss := true } wants filter details slot := by
+  unfold publishA publishE Out.res
+  cases wants with
+  | false => simp [Out.nop]
+  | true =>
+    cases slot with
+    | none => simp [faultAt, writeOut, publish]
+    | some s => simp [faultAt, Out.fail]
+
+/-- the environment of `propagateE` as a fault plan: a cache miss of the claim's secret is a
+NotFound answer to its Get (call 1) -/
+def envOf (e : Env) : EnvW := ⟨if e.miss then some ⟨1, .notFound, false⟩ else none, e.swap⟩
+
+theorem propagateA_env (e : Env) (fw tw : Bool) (src dst : Slot) :
+    (propagateA (envOf e) fw tw src dst).res dst = propagateE e fw tw src dst := by
+  unfold propagateA propagateE Out.res envOf
+  by_cases hw : (!fw || !tw) = true
+  · simp [hw, Out.nop]
+  · simp only [hw, Bool.false_eq_true, if_false]
+    cases hm : e.miss with
+    | false =>
+      simp only [Bool.false_eq_true, if_false, faultAt]
+      cases src with
+      | none => simp [Out.fail]
+      | some fs =>
+        by_cases hx : fs.ctrl = .xr
+        · simp only [hx, ne_eq, not_true_eq_false, if_false]
+          cases dst with
+          | none => simp [writeOut, faultAt]
+          | some d =>
+            simp only []
+            by_cases hc : controllable d .owner = true
+            · by_cases hd : dataEq d.data fs.data = true
+              · simp [hc, hd, Out.nop]
+              · by_cases hs : e.swap = true
+                · simp [hc, hd, hs, Out.fail]
+                · simp [hc, hd, hs, writeOut, faultAt]
+            · simp [hc, Out.fail]
+        · simp [hx, Out.fail]
+    | true =>
+      simp only [if_true, faultAt]
+      cases src with
+      | none => simp [Out.fail]
+      | some fs =>
+        by_cases hx : fs.ctrl = .xr
+        · cases dst with
+          | none => simp [hx, writeOut, faultAt]
+          | some d => simp [hx, Out.fail]
+        · simp [hx, Out.fail]
+
+/-- **Keys and values under every fault plan.** Whatever call fails with whatever error class
+(also when the answer to a write that took effect is lost): the data a publish stores holds, for
+every key, the composition's value if the filter allows the key and the composition produced it,
+and the previously stored value otherwise. -/
+theorem publishA_write_keys (f : Option Fault) (filter : List String) (details : Data)
+    (hn : (details.map (·.1)).Nodup) (slot : Slot) (d' : Data)
+    (h : (publishA f true filter details slot).write = some d') (k : String) :
+    dget d' k = (if allowed filter k then dget details k else none).orElse (fun _ => dget (slotData slot) k) := by
+  obtain ⟨_, hc⟩ := publishA_write_cases f true filter details slot d' h
+  rcases hc with ⟨rfl, rfl⟩ | ⟨s, rfl, _, _, _, rfl⟩
+  · simp only [slotData]
+    rw [dget_desiredData]
+    cases (if allowed filter k = true then dget details k else none) <;> simp [dget]
+  · simp only [slotData]
+    rw [dget_mergeData _ _ (desiredData_nodup filter details hn), dget_desiredData]
+
+/-- **The guard under every fault plan**: a secret the writer may not control is never written
+and nothing is reported published, whichever call fails with whichever class. -/
+theorem publishA_guard (f : Option Fault) (wants : Bool) (filter : List String) (details : Data) (s : Secret)
+    (h : controllable s .owner = false) :
+    (publishA f wants filter details (some s)).write = none ∧ (publishA f wants filter details (some s)).published = false := by
+  have hw : (publishA f wants filter details (some s)).write = none := by
+    cases hq : (publishA f wants filter details (some s)).write with
+    | none => rfl
+    | some d' =>
+      obtain ⟨_, hc⟩ := publishA_write_cases f wants filter details (some s) d' hq
+      rcases hc with ⟨h0, _⟩ | ⟨s', h0, hc', _⟩
+      · cases h0
+      · cases h0; simp [h] at hc'
+  refine ⟨hw, ?_⟩
+  cases hp : (publishA f wants filter details (some s)).published with
+  | false => rfl
+  | true =>
+    obtain ⟨⟨d, hd⟩, _⟩ := publishA_published f wants filter details (some s) hp
+    simp [hw] at hd
+
+/-- **No error class is swallowed.** If some call of a publish fails (and the request did not
+take effect), success is reported only in one case: the Get answered NotFound for a secret that
+really does not exist, and the Create that followed succeeded. -/
+theorem publishA_published_under_fault (x : Fault) (hl : x.lost = false) (hi : x.idx ≤ 1)
+    (filter : List String) (details : Data) (slot : Slot)
+    (h : (publishA (some x) true filter details slot).published = true) :
+    x.idx = 0 ∧ x.cls = .notFound ∧ slot = none := by
+  unfold publishA at h
+  simp only [Bool.not_true, Bool.false_eq_true, if_false, faultAt] at h
+  by_cases h0 : x.idx = 0
+  · simp only [h0, if_true] at h
+    by_cases hc : x.cls = .notFound
+    · cases slot with
+      | none => exact ⟨h0, hc, rfl⟩
+      | some s => simp [hc, Out.fail] at h
+    · simp [hc, Out.fail] at h
+  · have h1 : x.idx = 1 := by omega
+    simp only [h0, if_false] at h
+    cases slot with
+    | none => simp [writeOut, faultAt, h1, hl] at h
+    | some s =>
+      simp only [] at h
+      by_cases hc : controllable s .owner = true
+      · by_cases hu : needsUpdate s.data (desiredData filter details) = true
+        · simp [hc, hu, writeOut, faultAt, h1, hl] at h
+        · simp [hc, hu, Out.nop] at h
+      · simp [hc, Out.fail] at h
+
+/-- **Provenance and exact copy under every fault plan and concurrent writer**: whatever a
+propagation stores is exactly the data of the source secret, which was read without error and is
+controlled by the bound XR. -/
+theorem propagateA_copy (e : EnvW) (fw tw : Bool) (src dst : Slot) (d' : Data)
+    (h : (propagateA e fw tw src dst).write = some d') :
+    ∃ fs, src = some fs ∧ fs.ctrl = .xr ∧ d' = fs.data := by
+  obtain ⟨_, _, _, fs, h1, h2, h3, _⟩ := propagateA_write_cases e fw tw src dst d' h
+  exact ⟨fs, h1, h2, h3⟩
+
+/-- an error of ANY class on the read of the XR's secret (NotFound, Forbidden, a timeout, …)
+ends the propagation: nothing is written -/
+theorem propagateA_source_error (e : EnvW) (x : Fault) (he : e.fault = some x) (hx : x.idx = 0)
+    (fw tw : Bool) (src dst : Slot) :
+    (propagateA e fw tw src dst).write = none ∧ (propagateA e fw tw src dst).published = false := by
+  unfold propagateA
+  by_cases hw : (!fw || !tw) = true
+  · simp [hw, Out.nop]
+  · simp [hw, he, faultAt, hx, Out.fail]
+
+/-- the claim's destination is guarded under every fault plan -/
+theorem propagateA_guard (e : EnvW) (fw tw : Bool) (src : Slot) (d : Secret) (h : controllable d .owner = false) :
+    (propagateA e fw tw src (some d)).write = none := by
+  cases hq : (propagateA e fw tw src (some d)).write with
+  | none => rfl
+  | some d' =>
+    obtain ⟨_, _, _, fs, _, _, _, hc⟩ := propagateA_write_cases e fw tw src (some d) d' hq
+    rcases hc with h0 | ⟨d0, h0, hc', _⟩
+    · cases h0
+    · cases h0; simp [h] at hc'
+
+/-! ### one publisher and one propagator serving many owners over a store of many secrets -/
+
+/-- the data stored under a key ([] when there is no such secret) -/
+def dataAt (w : World) (k : Key) : Data := ((wget w k).map (·.data)).getD []
+
+/-- **Only the addressed secret.** An operation changes no secret but the one its owner
+references — not a secret of the same name in another namespace, not one whose name extends
+it, not the source it reads — in every environment. -/
+theorem stepW_frame (filter : List String) (e : EnvW) (w : World) (op : Op) (k : Key)
+    (h : op.target ≠ some k) : wget (stepW filter e w op).1 k = wget w k := by
+  cases op with
+  | pub me ref details =>
+    cases ref with
+    | none => rfl
+    | some k0 =>
+      have : k ≠ k0 := fun e' => h (by simp [Op.target, e'])
+      exact applyOut_get_ne _ _ _ _ _ this
+  | prop me cns cref xr xref =>
+    cases xref with
+    | none => rfl
+    | some sk =>
+      cases cref with
+      | none => rfl
+      | some dn =>
+        have : k ≠ (cns, dn) := fun e' => h (by simp [Op.target, e'])
+        exact applyOut_get_ne _ _ _ _ _ this
+
+/-- **Only the owner's secret.** If the addressed secret is controlled by another UID (an owner
+of the same name re-created with a new UID included) or is uncontrolled and not of the
+connection type, the whole store stays as it is and nothing is reported published — for every
+error class at every call, cache miss and concurrent writer. -/
+theorem stepW_guard (filter : List String) (e : EnvW) (w : World) (op : Op) (k : Key) (s : ASecret)
+    (ht : op.target = some k) (hs : wget w k = some s) (hc : mayControl op.me s = false) :
+    (stepW filter e w op).1 = w ∧ (stepW filter e w op).2.published = false := by
+  cases op with
+  | pub me ref details =>
+    simp only [Op.target] at ht
+    subst ht
+    have hv : controllable (dstView me s) .owner = false := by rw [dstView_controllable]; exact hc
+    have := publishA_guard e.fault true filter details (dstView me s) hv
+    simp only [stepW, hs, Option.map_some]
+    exact ⟨applyOut_none _ _ _ _ this.1, this.2⟩
+  | prop me cns cref xr xref =>
+    cases xref with
+    | none => exact ⟨rfl, rfl⟩
+    | some sk =>
+      cases cref with
+      | none => simp [Op.target] at ht
+      | some dn =>
+        simp only [Op.target, Option.map_some, Option.some.injEq] at ht
+        subst ht
+        have hv : controllable (dstView me s) .owner = false := by rw [dstView_controllable]; exact hc
+        have hw := propagateA_guard e true true ((wget w sk).map (srcView xr)) (dstView me s) hv
+        simp only [stepW, hs, Option.map_some]
+        refine ⟨applyOut_none _ _ _ _ hw, ?_⟩
+        cases hp : (propagateA e true true ((wget w sk).map (srcView xr)) (some (dstView me s))).published with
+        | false => rfl
+        | true =>
+          exfalso
+          revert hp hw
+          unfold propagateA
+          simp only [Bool.not_true, Bool.or_self, Bool.false_eq_true, if_false]
+          cases faultAt e.fault 0 with
+          | some x => simp [Out.fail]
+          | none =>
+            simp only []
+            cases (wget w sk).map (srcView xr) with
+            | none => simp [Out.fail]
+            | some fs =>
+              simp only []
+              by_cases hx : fs.ctrl = .xr
+              · simp only [hx, ne_eq, not_true_eq_false, if_false]
+                cases faultAt e.fault 1 with
+                | some x => by_cases hcl : x.cls = .notFound <;> simp [hcl, Out.fail]
+                | none => simp [hv, Out.fail]
+              · simp [hx, Out.fail]
+
+/-- **Whatever changes belongs to the caller afterwards.** A secret that differs after an
+operation is the one the operation addresses, and it is then a connection secret whose only
+owner reference is the controller reference of the operation's owner. -/
+theorem stepW_owner (filter : List String) (e : EnvW) (w : World) (op : Op) (k : Key)
+    (h : wget (stepW filter e w op).1 k ≠ wget w k) :
+    op.target = some k ∧ ∃ d, wget (stepW filter e w op).1 k = some (written op.me d) := by
+  have ht : op.target = some k := by
+    cases hq : decide (op.target = some k) with
+    | true => exact of_decide_eq_true hq
+    | false => exact absurd (stepW_frame filter e w op k (of_decide_eq_false hq)) h
+  refine ⟨ht, ?_⟩
+  cases op with
+  | pub me ref details =>
+    simp only [Op.target] at ht
+    subst ht
+    simp only [stepW, Op.me] at h ⊢
+    cases hq : (publishA e.fault true filter details ((wget w k).map (dstView me))).write with
+    | none => rw [applyOut_none _ _ _ _ hq] at h; exact absurd rfl h
+    | some d => exact ⟨d, applyOut_some _ _ _ _ d hq⟩
+  | prop me cns cref xr xref =>
+    cases xref with
+    | none => exact absurd rfl h
+    | some sk =>
+      cases cref with
+      | none => exact absurd rfl h
+      | some dn =>
+        simp only [Op.target, Option.map_some, Option.some.injEq] at ht
+        subst ht
+        simp only [stepW, Op.me] at h ⊢
+        cases hq : (propagateA e true true ((wget w sk).map (srcView xr)) ((wget w (cns, dn)).map (dstView me))).write with
+        | none => rw [applyOut_none _ _ _ _ hq] at h; exact absurd rfl h
+        | some d => exact ⟨d, applyOut_some _ _ _ _ d hq⟩
+
+/-- **Keys and values in the world.** After a publish of XR `me`, every key of its secret either
+holds what it held before, or is allowed by the filter and holds the value the composition
+produced in THIS call — never a value of an earlier call for another owner. -/
+theorem stepW_pub_keys (filter : List String) (e : EnvW) (w : World) (me : String) (k : Key) (details : Data)
+    (hn : (details.map (·.1)).Nodup) (key : String) :
+    dget (dataAt (stepW filter e w (.pub me (some k) details)).1 k) key = dget (dataAt w k) key ∨
+    (allowed filter key = true ∧
+      dget (dataAt (stepW filter e w (.pub me (some k) details)).1 k) key = dget details key) := by
+  simp only [stepW]
+  cases hq : (publishA e.fault true filter details ((wget w k).map (dstView me))).write with
+  | none => rw [applyOut_none _ _ _ _ hq]; exact Or.inl rfl
+  | some d' =>
+    have hk := publishA_write_keys e.fault filter details hn _ d' hq key
+    have hd : dataAt (applyOut w k me (publishA e.fault true filter details ((wget w k).map (dstView me)))) k = d' := by
+      simp [dataAt, applyOut_some _ _ _ _ d' hq, written]
+    have hs : slotData ((wget w k).map (dstView me)) = dataAt w k := by
+      cases hg : wget w k <;> simp [slotData, dataAt, hg, dstView]
+    rw [hd, hk, hs]
+    by_cases ha : allowed filter key = true
+    · rw [if_pos ha]
+      cases hdk : dget details key with
+      | none => exact Or.inl rfl
+      | some v => exact Or.inr ⟨ha, rfl⟩
+    · rw [if_neg ha]
+      exact Or.inl rfl
+
+/-- **A claim's secret changes only by an exact copy of a secret its XR controls.** If the
+claim's secret differs after a propagation, the secret the XR references exists, is controlled
+by the XR's UID, and the claim's secret now holds exactly its data — for every error class at
+every call, cache miss and concurrent writer. A claim cannot use Crossplane to read a secret its
+XR does not own, whatever else is called like it. -/
+theorem stepW_prop_copy (filter : List String) (e : EnvW) (w : World) (me cns dn xr : String) (sk : Key)
+    (h : wget (stepW filter e w (.prop me cns (some dn) xr (some sk))).1 (cns, dn) ≠ wget w (cns, dn)) :
+    ∃ fs, wget w sk = some fs ∧ fs.ctrl = some xr ∧
+      wget (stepW filter e w (.prop me cns (some dn) xr (some sk))).1 (cns, dn) = some (written me fs.data) := by
+  simp only [stepW] at h ⊢
+  cases hq : (propagateA e true true ((wget w sk).map (srcView xr)) ((wget w (cns, dn)).map (dstView me))).write with
+  | none => rw [applyOut_none _ _ _ _ hq] at h; exact absurd rfl h
+  | some d' =>
+    obtain ⟨fs, h1, h2, h3⟩ := propagateA_copy e true true _ _ d' hq
+    cases hg : wget w sk with
+    | none => simp [hg] at h1
+    | some a =>
+      rw [hg] at hq
+      simp only [hg, Option.map_some, Option.some.injEq] at h1
+      subst h1
+      refine ⟨a, rfl, (srcView_xr xr a).mp h2, ?_⟩
+      rw [applyOut_some _ _ _ _ d' hq, h3]
+      rfl
+
+/-- **Written only if asked.** An owner that references no secret (or, for a claim, whose XR
+references none) causes no write request at all and leaves the store as it is. -/
+theorem stepW_unasked (filter : List String) (e : EnvW) (w : World) (op : Op)
+    (h : op.target = none ∨ ∃ me cns cref xr, op = .prop me cns cref xr none) :
+    (stepW filter e w op).1 = w ∧ (stepW filter e w op).2.writes = 0 ∧ (stepW filter e w op).2.published = false := by
+  cases op with
+  | pub me ref details =>
+    rcases h with h | ⟨_, _, _, _, h⟩
+    · simp only [Op.target] at h
+      subst h
+      simp [stepW, publishA, Out.nop]
+    · cases h
+  | prop me cns cref xr xref =>
+    rcases h with h | ⟨_, _, _, _, h⟩
+    · cases cref with
+      | some dn => simp [Op.target] at h
+      | none => cases xref <;> simp [stepW, Out.nop]
+    · cases h
+      simp [stepW, Out.nop]
+
+/-- **Identical data is never rewritten, in the world.** If every key the XR would publish is
+already stored with that value, the store stays as it is in every environment, and without a
+failing call no write request is sent and nothing is reported published. -/
+theorem stepW_pub_no_rewrite (filter : List String) (e : EnvW) (w : World) (me : String) (k : Key)
+    (details : Data) (s : ASecret) (hs : wget w k = some s)
+    (h : ∀ kv ∈ desiredData filter details, dget s.data kv.1 = some kv.2) :
+    (stepW filter e w (.pub me (some k) details)).1 = w ∧
+    (e.fault = none → (stepW filter e w (.pub me (some k) details)).2.writes = 0 ∧
+        (stepW filter e w (.pub me (some k) details)).2.published = false) := by
+  have hnu : needsUpdate (dstView me s).data (desiredData filter details) = false := by
+    show needsUpdate s.data (desiredData filter details) = false
+    simp only [needsUpdate, List.any_eq_false, ne_eq, decide_eq_true_eq]
+    intro kv hkv hne
+    exact hne (h kv hkv)
+  simp only [stepW, hs, Option.map_some]
+  constructor
+  · apply applyOut_none
+    cases hq : (publishA e.fault true filter details (some (dstView me s))).write with
+    | none => rfl
+    | some d' =>
+      obtain ⟨_, hc⟩ := publishA_write_cases e.fault true filter details _ d' hq
+      rcases hc with ⟨h0, _⟩ | ⟨s', h0, _, hu, _⟩
+      · cases h0
+      · cases h0; simp [hnu] at hu
+  · intro hf
+    rw [hf]
+    unfold publishA
+    simp only [Bool.not_true, Bool.false_eq_true, if_false, faultAt]
+    by_cases hc : controllable (dstView me s) .owner = true
+    · simp [hc, hnu, Out.nop]
+    · simp [hc, Out.fail]
+
+/-- Publishing the same details again right after a successful publish sends no write request. -/
+theorem stepW_pub_idempotent (filter : List String) (w : World) (me : String) (k : Key) (details : Data)
+    (hn : (details.map (·.1)).Nodup)
+    (hp : (stepW filter {} w (.pub me (some k) details)).2.published = true) :
+    (stepW filter {} (stepW filter {} w (.pub me (some k) details)).1 (.pub me (some k) details)).2.writes = 0 := by
+  simp only [stepW] at hp
+  obtain ⟨⟨d', hq⟩, _⟩ := publishA_published _ _ _ _ _ hp
+  have hk := publishA_write_keys none filter details hn _ d' hq
+  have hget : wget (stepW filter {} w (.pub me (some k) details)).1 k = some (written me d') := by
+    simp only [stepW]; exact applyOut_some _ _ _ _ d' hq
+  refine (stepW_pub_no_rewrite filter {} _ me k details (written me d') hget ?_).2 rfl |>.1
+  intro kv hkv
+  simp only [written]
+  rw [hk kv.1]
+  have hd : dget (desiredData filter details) kv.1 = some kv.2 := by
+    have hnd := desiredData_nodup filter details hn
+    generalize desiredData filter details = dd at hkv hnd
+    induction dd with
+    | nil => cases hkv
+    | cons p ps ih =>
+      simp only [List.map_cons, List.nodup_cons] at hnd
+      rcases List.mem_cons.mp hkv with rfl | hm
+      · simp [dget]
+      · have hne : p.1 ≠ kv.1 := by
+          intro e; exact hnd.1 (e ▸ List.mem_map.mpr ⟨kv, hm, rfl⟩)
+        simp only [dget, List.find?, hne, decide_false]
+        exact ih hm hnd.2
+  rw [dget_desiredData] at hd
+  by_cases ha : allowed filter kv.1 = true
+  · simp only [ha, if_true] at hd ⊢; rw [hd]; rfl
+  · simp [ha] at hd
+
+/-- one step keeps a secret none of whose would-be writers may control -/
+theorem stepW_keeps (filter : List String) (e : EnvW) (w : World) (op : Op) (k : Key) (s : ASecret)
+    (hs : wget w k = some s) (hc : mayControl op.me s = false) : wget (stepW filter e w op).1 k = some s := by
+  by_cases ht : op.target = some k
+  · rw [(stepW_guard filter e w op k s ht hs hc).1]; exact hs
+  · rw [stepW_frame filter e w op k ht]; exact hs
+
+/-- **Histories: details reach only their owner's secret.** Over ANY sequence of operations of
+the long-lived publisher and propagator, for any owners, in any environments (error classes,
+lost answers, cache misses, concurrent writers): a secret that none of the acting owners may
+control — it is controlled by another UID, or uncontrolled and not a connection secret — is
+bit for bit what it was. -/
+theorem runW_foreign_untouched (filter : List String) (ops : List (EnvW × Op)) (w : World) (k : Key) (s : ASecret)
+    (hs : wget w k = some s) (hc : ∀ p ∈ ops, mayControl p.2.me s = false) :
+    wget (runW filter w ops) k = some s := by
+  induction ops generalizing w with
+  | nil => exact hs
+  | cons p ps ih =>
+    obtain ⟨e, op⟩ := p
+    simp only [runW]
+    apply ih
+    · exact stepW_keeps filter e w op k s hs (hc (e, op) (List.mem_cons_self ..))
+    · intro q hq; exact hc q (List.mem_cons_of_mem _ hq)
+
+/-- Histories: a key no operation of the sequence addresses keeps its secret (or stays absent). -/
+theorem runW_frame (filter : List String) (ops : List (EnvW × Op)) (w : World) (k : Key)
+    (h : ∀ p ∈ ops, p.2.target ≠ some k) : wget (runW filter w ops) k = wget w k := by
+  induction ops generalizing w with
+  | nil => rfl
+  | cons p ps ih =>
+    obtain ⟨e, op⟩ := p
+    simp only [runW]
+    rw [ih _ (fun q hq => h q (List.mem_cons_of_mem _ hq))]
+    exact stepW_frame filter e w op k (h (e, op) (List.mem_cons_self ..))
+
+/-! ### the flow of connection details through the composers -/
+
+/-- **P&T: a foreign resource blocks the flow.** If any template is associated with a composed
+resource controlled by someone else, the reconcile publishes nothing and the store is unchanged,
+however many other templates there are and wherever the foreign one stands. -/
+theorem flow_pt_foreign_blocks (filter : List String) (e : EnvW) (w : World) (me : String) (ref : Option Key)
+    (ts : List Tmpl) (h : ∃ t ∈ ts, t.ctrl = .other) :
+    flowStep filter e w false me ref ts = (w, .fail 0, false) := by
+  obtain ⟨t, ht, hc⟩ := h
+  have : (ts.any fun t => decide (t.ctrl = .other)) = true := List.any_eq_true.mpr ⟨t, ht, by simp [hc]⟩
+  simp [flowStep, flowDetails, this]
+
+/-- **Functions: a foreign resource is invisible.** What the pipeline is shown, and so what is
+published, does not depend on resources controlled by someone else: not on their connection
+secrets, not on their number or position. -/
+theorem flow_fn_foreign_invisible (ts ts' : List Tmpl)
+    (h : ts.filter (fun t => t.ctrl ≠ .other) = ts'.filter (fun t => t.ctrl ≠ .other)) :
+    flowDetails true ts = flowDetails true ts' := by
+  show foldDetails (ts.filter fun t => t.ctrl ≠ .other) [] = foldDetails (ts'.filter fun t => t.ctrl ≠ .other) []
+  rw [h]
+
+/-- a reconcile changes no secret but the one its XR references, whatever its templates read -/
+theorem flow_frame (filter : List String) (e : EnvW) (w : World) (fn : Bool) (me : String) (ref : Option Key)
+    (ts : List Tmpl) (k : Key) (h : ref ≠ some k) : wget (flowStep filter e w fn me ref ts).1 k = wget w k := by
+  unfold flowStep
+  cases flowDetails fn ts with
+  | none => rfl
+  | some d => exact stepW_frame filter e w (.pub me ref d) k (by simpa [Op.target] using h)
+
+/-- a reconcile never writes a secret its XR may not control -/
+theorem flow_guard (filter : List String) (e : EnvW) (w : World) (fn : Bool) (me : String) (k : Key)
+    (ts : List Tmpl) (s : ASecret) (hs : wget w k = some s) (hc : mayControl me s = false) :
+    (flowStep filter e w fn me (some k) ts).1 = w := by
+  unfold flowStep
+  cases flowDetails fn ts with
+  | none => rfl
+  | some d => exact (stepW_guard filter e w (.pub me (some k) d) k s rfl hs hc).1
+
+/-- the values a template can contribute: the values of its resource's connection secret, its
+fixed values, the name of its resource -/
+def tmplValues (t : Tmpl) : List String :=
+  (t.secret.getD []).map (·.2) ++ t.cfgs.filterMap (·.value) ++ [t.cdName]
+
+theorem dget_dset_cases (d : Data) (n x k v : String) (h : dget (dset d n x) k = some v) :
+    v = x ∨ dget d k = some v := by
+  by_cases hk : k = n
+  · subst hk; rw [dget_dset_self] at h; exact Or.inl (Option.some.inj h).symm
+  · rw [dget_dset_ne d n k x hk] at h; exact Or.inr h
+
+theorem dget_mem_values (d : Data) (k v : String) (h : dget d k = some v) : v ∈ d.map (·.2) := by
+  unfold dget at h
+  cases hf : d.find? (fun p => decide (p.1 = k)) with
+  | none => simp [hf] at h
+  | some p =>
+    simp only [hf, Option.map_some, Option.some.injEq] at h
+    exact List.mem_map.mpr ⟨p, List.mem_of_find?_eq_some hf, h⟩
+
+/-- every value extraction adds comes from the connection secret it was given, from a fixed
+value of a config, or from a field of the resource -/
+theorem extract_provenance (conn : Data) (f : String → Option String) (cfgs : List Cfg) (acc d : Data)
+    (h : extract conn f cfgs acc = some d) (k v : String) (hk : dget d k = some v) :
+    dget acc k = some v ∨ v ∈ conn.map (·.2) ∨ v ∈ cfgs.filterMap (·.value) ∨ ∃ p, f p = some v := by
+  induction cfgs generalizing acc with
+  | nil =>
+    simp only [extract, Option.some.injEq] at h
+    subst h; exact Or.inl hk
+  | cons c cs ih =>
+    have step : ∀ acc', extract conn f cs acc' = some d →
+        (∀ k v, dget acc' k = some v → dget acc k = some v ∨ v ∈ conn.map (·.2) ∨ v ∈ (c :: cs).filterMap (·.value) ∨ ∃ p, f p = some v) →
+        dget acc k = some v ∨ v ∈ conn.map (·.2) ∨ v ∈ (c :: cs).filterMap (·.value) ∨ ∃ p, f p = some v := by
+      intro acc' h' hacc
+      rcases ih acc' h' with h1 | h2 | h3 | h4
+      · exact hacc k v h1
+      · exact Or.inr (Or.inl h2)
+      · refine Or.inr (Or.inr (Or.inl ?_))
+        simp only [List.filterMap_cons]
+        cases c.value <;> simp [h3]
+      · exact Or.inr (Or.inr (Or.inr h4))
+    unfold extract at h
+    split at h
+    · cases h
+    · split at h
+      · -- FromValue
+        split at h
+        · cases h
+        · rename_i x hv
+          apply step _ h
+          intro k' v' hk'
+          rcases dget_dset_cases _ _ _ _ _ hk' with rfl | h0
+          · refine Or.inr (Or.inr (Or.inl ?_))
+            simp [hv]
+          · exact Or.inl h0
+      · -- FromConnectionSecretKey
+        split at h
+        · cases h
+        · rename_i key hkey
+          split at h
+          · exact step _ h (fun k' v' hk' => Or.inl hk')
+          · rename_i x hx
+            apply step _ h
+            intro k' v' hk'
+            rcases dget_dset_cases _ _ _ _ _ hk' with rfl | h0
+            · exact Or.inr (Or.inl (dget_mem_values conn key _ hx))
+            · exact Or.inl h0
+      · -- FromFieldPath
+        split at h
+        · cases h
+        · rename_i path hpath
+          split at h
+          · exact step _ h (fun k' v' hk' => Or.inl hk')
+          · rename_i x hx
+            apply step _ h
+            intro k' v' hk'
+            rcases dget_dset_cases _ _ _ _ _ hk' with rfl | h0
+            · exact Or.inr (Or.inr (Or.inr ⟨path, hx⟩))
+            · exact Or.inl h0
+      · exact step _ h (fun k' v' hk' => Or.inl hk')
+
+theorem tmplCfg_values (cfgs : List Cfg) : (cfgs.map tmplCfg).filterMap (·.value) = cfgs.filterMap (·.value) := by
+  induction cfgs with
+  | nil => rfl
+  | cons c cs ih => simp only [List.map_cons, List.filterMap_cons, ih, tmplCfg]
+
+/-- every value of the folded details comes from one of the folded templates -/
+theorem foldDetails_provenance (ts : List Tmpl) (acc d : Data) (h : foldDetails ts acc = some d)
+    (k v : String) (hk : dget d k = some v) : dget acc k = some v ∨ ∃ t ∈ ts, v ∈ tmplValues t := by
+  induction ts generalizing acc with
+  | nil =>
+    simp only [foldDetails, Option.some.injEq] at h
+    subst h; exact Or.inl hk
+  | cons t ts ih =>
+    unfold foldDetails at h
+    split at h
+    · cases h
+    · split at h
+      · cases h
+      · rename_i acc' hacc
+        rcases ih acc' h with h1 | ⟨t', ht', hv⟩
+        · rcases extract_provenance _ _ _ _ _ hacc k v h1 with h2 | h2 | h2 | ⟨p, h2⟩
+          · exact Or.inl h2
+          · exact Or.inr ⟨t, List.mem_cons_self .., by simp [tmplValues, h2]⟩
+          · rw [tmplCfg_values] at h2
+            exact Or.inr ⟨t, List.mem_cons_self .., by simp [tmplValues, h2]⟩
+          · refine Or.inr ⟨t, List.mem_cons_self .., ?_⟩
+            unfold tmplFieldAt at h2
+            split at h2
+            · simp only [Option.some.injEq] at h2
+              simp [tmplValues, h2]
+            · cases h2
+        · exact Or.inr ⟨t', List.mem_cons_of_mem _ ht', hv⟩
+
+/-- **Only values produced by the composition for this XR.** After a reconcile (P&T or
+functions, any number of templates, any environment of the publish), every key of the XR's
+secret either holds what it held before, or is allowed by the filter and holds a value drawn, in
+THIS reconcile, from a template whose composed resource is not controlled by someone else. -/
+theorem flow_values_provenance (filter : List String) (e : EnvW) (w : World) (fn : Bool) (me : String) (k : Key)
+    (ts : List Tmpl) (hn : ∀ d, flowDetails fn ts = some d → (d.map (·.1)).Nodup) (key v : String)
+    (hv : dget (dataAt (flowStep filter e w fn me (some k) ts).1 k) key = some v) :
+    dget (dataAt w k) key = some v ∨
+    (allowed filter key = true ∧ ∃ t ∈ ts, t.ctrl ≠ .other ∧ v ∈ tmplValues t) := by
+  unfold flowStep at hv
+  cases hd : flowDetails fn ts with
+  | none => rw [hd] at hv; exact Or.inl hv
+  | some d =>
+    rw [hd] at hv
+    simp only [] at hv
+    rcases stepW_pub_keys filter e w me k d (hn d hd) key with h1 | ⟨ha, h2⟩
+    · rw [h1] at hv; exact Or.inl hv
+    · rw [h2] at hv
+      refine Or.inr ⟨ha, ?_⟩
+      unfold flowDetails at hd
+      cases fn with
+      | true =>
+        simp only [if_true] at hd
+        rcases foldDetails_provenance _ [] d hd key v hv with h0 | ⟨t, ht, hvt⟩
+        · simp [dget] at h0
+        · have := List.mem_filter.mp ht
+          exact ⟨t, this.1, by simpa using this.2, hvt⟩
+      | false =>
+        simp only [Bool.false_eq_true, if_false] at hd
+        split at hd
+        · cases hd
+        · rename_i hany
+          rcases foldDetails_provenance _ [] d hd key v hv with h0 | ⟨t, ht, hvt⟩
+          · simp [dget] at h0
+          · refine ⟨t, ht, ?_, hvt⟩
+            intro hc
+            exact hany (List.any_eq_true.mpr ⟨t, ht, by simp [hc]⟩)
+
+
+/-- functions: after a successful composition no template refers to somebody else's resource any
+more (each such template got a fresh resource of the XR's own, without a connection secret), so
+from then on the values a foreign resource's secret holds can still not reach the XR's secret -/
+theorem adoptFresh_no_foreign (ts : List Tmpl) : ∀ t ∈ adoptFresh true true ts, t.ctrl ≠ .other := by
+  intro t ht
+  simp only [adoptFresh, Bool.and_self, if_true, List.mem_map] at ht
+  obtain ⟨t0, _, rfl⟩ := ht
+  by_cases h : t0.ctrl = .other
+  · simp [h]
+  · simp [h]
+
+theorem adoptFresh_drops_foreign_secret (ts : List Tmpl) :
+    ∀ t ∈ ts, t.ctrl = .other → ∃ t' ∈ adoptFresh true true ts, t'.cfgs = t.cfgs ∧ t'.secret = none ∧ t'.ctrl = .owner := by
+  intro t ht hc
+  refine ⟨{ t with ctrl := .owner, secret := none, fetchErr := false, cdName := "" }, ?_, rfl, rfl, rfl⟩
+  simp only [adoptFresh, Bool.and_self, if_true, List.mem_map]
+  exact ⟨t, ht, by simp [hc]⟩
+
+/-! ### non-vacuity of the world theorems -/
+
+/-- one publisher, two XRs whose secrets have the same name in different namespaces: each gets
+its own details; a secret of that name controlled by a third UID is refused -/
+example :
+    let w0 : World := [(("ns-c", "conn"), ⟨connType, some "uid-c", [], [("keep", "me")]⟩)]
+    let w := runW ["user"] w0
+      [({}, .pub "uid-a" (some ("ns-a", "conn")) [("user", "a"), ("pass", "x")]),
+       ({}, .pub "uid-b" (some ("ns-b", "conn")) [("user", "b")]),
+       ({}, .pub "uid-b" (some ("ns-c", "conn")) [("user", "b")])]
+    wget w ("ns-a", "conn") = some (written "uid-a" [("user", "a")]) ∧
+    wget w ("ns-b", "conn") = some (written "uid-b" [("user", "b")]) ∧
+    wget w ("ns-c", "conn") = some ⟨connType, some "uid-c", [], [("keep", "me")]⟩ := by decide
+
+/-- a Forbidden answer to the Patch leaves the stored data; a lost answer does not -/
+example :
+    let w0 : World := [(("ns", "conn"), written "uid-a" [("user", "old")])]
+    (stepW [] { fault := some ⟨1, .forbidden, false⟩ } w0 (.pub "uid-a" (some ("ns", "conn")) [("user", "new")])).1 = w0 ∧
+    wget (stepW [] { fault := some ⟨1, .deadline, true⟩ } w0 (.pub "uid-a" (some ("ns", "conn")) [("user", "new")])).1 ("ns", "conn")
+      = some (written "uid-a" [("user", "new")]) := by decide
+
+/-- functions: the foreign resource's secret never shows; P&T: it blocks the reconcile -/
+example :
+    let own : Tmpl := ⟨"cd-1", .owner, some [("user", "mine")], false, [⟨"FromConnectionSecretKey", "", some "user", none, none⟩]⟩
+    let foreign : Tmpl := ⟨"cd-2", .other, some [("user", "theirs")], false, [⟨"FromConnectionSecretKey", "", some "user", none, none⟩]⟩
+    flowDetails true [own, foreign] = some [("user", "mine")] ∧ flowDetails false [own, foreign] = none ∧
+    flowDetails false [own] = some [("user", "mine")] := by decide
 
 end Xp.C09
